@@ -6,6 +6,7 @@
 -/
 import Nlmodel.Model.Pipeline
 import Nlmodel.Proofs.Lemmas.SimFnAll
+import Nlmodel.Proofs.Lemmas.Sim6Body
 namespace Nl
 namespace C12
 open Spec
@@ -182,6 +183,23 @@ theorem C12_call_simulation (W : SimF.World) (hW : SimF.WOK W) (f : Nat) (nl : N
     SimF.GoalV W (SimF.bigScope fn Γ Γx) Λ nl below fr fn ab lp pos locs ops g l (pos + sizeE (.call fe as)) ops st
       (evalE f (.call fe as) st) :=
   (SimF.pall hW f).e nl fn Γ Γx Λ ab (.call fe as) hx st pos lp cs below fr locs ops g l hsc hinv hcode hpool
+
+/-- A CALL EXPRESSION WITH HEAP VALUES, END TO END ON THE MACHINE (stage 6, collections included): in any frame
+    `below ++ locs ++ ops` with any suspended callers `fr`, for a call `f(a₁..aₙ)` whose arguments, callee and body may
+    build, pass, mutate and return floats, strings and arrays: if the definitional semantics gives the value `v`, the machine
+    reaches the instruction after the `Call` in the SAME frame — `below` literally untouched, the caller's locals related to
+    what the semantics' restored activation holds, `ops` with a value related to `v` pushed, the same suspended callers —
+    through every collection the returns in between have run; and EVERY value the caller still holds in `below` or `ops`
+    (a half-evaluated expression, an alias of an array the callee changed) is related afterwards to what it was related to
+    before (`Sim6.Keep`): the caller resumes intact.  Errors are matched by errors after the same output; the only other
+    possibility is the machine's stack/frame limit.  Instance of `Sim6.pall6` for expressions. -/
+theorem C12_call_simulation_with_heap_values (W : Sim6.World) (hW : Sim6.WOK6 W) (f : Nat) (nl : Nat) (fn : Bool) (Γ Γx Λ : Sim.Gam) (ab : Bool)
+    (fe : RExpr) (as : RExprs) (hx : Sim6.ZE nl fn Γ Λ ab (.call fe as))
+    (c : Sim6.Cfg) (lp : LoopCtx) (cs : List Const) (below : Array Value) (fr : List Frame)
+    (hsc : Sim6.Sc6 W fn Γ Γx Λ) (hinv : Sim6.Inv6 W (SimF.bigScope fn Γ Γx) Λ nl c) (hwt : TI.WT (c.vm W below fr))
+    (hcode : Sim.CodeAt W.C c.ip (emitE (.call fe as) c.ip lp cs).1) (hpool : Sim.Ext (emitE (.call fe as) c.ip lp cs).2 W.CS) :
+    Sim6.GoalV6 W (SimF.bigScope fn Γ Γx) Λ nl below fr fn ab lp c (c.ip + sizeE (.call fe as)) c.ops (evalE f (.call fe as) c.st) :=
+  (Sim6.pall6 hW f).e nl fn Γ Γx Λ ab (.call fe as) hx c lp cs below fr hsc hinv hwt hcode hpool
 
 end C12
 end Nl
